@@ -21,6 +21,6 @@ cd "$here"
 for p in "$@"; do
   out=$(PYDOCTOR_REPO="$wt" ./check "$p" quick 2>&1)
   rc=$?
-  echo "CHECK $p exit=$rc $(echo "$out" | grep -c '^VIOLATION') violation-lines | $(echo "$out" | tail -1)"
-  echo "$out" | grep '^VIOLATION' | head -3
+  printf "%s\n" "CHECK $p exit=$rc $(printf "%s\n" "$out" | grep -c "^VIOLATION") violation-lines | $(printf "%s\n" "$out" | tail -1)"
+  printf "%s\n" "$out" | grep "^VIOLATION" | head -3
 done
